@@ -290,3 +290,41 @@ def table_item(fn, unit, rhs, tparam, tval):
     if r["field"] not in names_ or names_.index(r["field"]) >= len(row["items"]):
         return None
     return row["items"][names_.index(r["field"])]
+
+
+def init_creates(fn):
+    """Global objects an initialisation function creates on demand (`if (G == NULL) G = ctor ();`): for every global G that fn assigns
+    from a call, whether - entered with G == NULL - every path to fn's end has made that assignment.
+    -> [(G, constructor name, ok, line of the assignment)]"""
+    out = []
+    cands = {}
+    for (b, i, n) in fn.nodes(elsewhere=True):
+        if n["k"] == "asg" and n.get("op") == "=":
+            l, r = strip_casts(n["l"]), strip_casts(n["r"])
+            if l is not None and l["k"] == "ref" and l.get("decl") == "global" and r is not None and r["k"] == "call" and r.get("callee"):
+                cands[l["name"]] = (r.get("callee"), line(n))
+    for G, (ctor, ln) in sorted(cands.items()):
+        missed = []
+
+        def on_stmt(st, b, i, stmt, G=G):
+            facts, made = st
+            for n in walk(stmt):
+                if n["k"] == "asg" and n.get("op") == "=" and strip_casts(n["l"])["k"] == "ref" and strip_casts(n["l"])["name"] == G:
+                    r = strip_casts(n["r"])
+                    made = r is not None and r["k"] == "call"
+            if stmt["k"] == "ret":
+                if not made:
+                    missed.append(line(stmt))
+                return []
+            return [(guards.transfer(facts, stmt), made)]
+
+        def on_edge(st, b, to, on):
+            f2 = guards.edge_assume(st[0], b, on)
+            return None if f2 is None else (f2, st[1])
+        f0 = guards.add_fact(guards.EMPTY, G, "==", 0)
+        fl = Flow(fn, [(f0, False)], on_stmt, on_edge).run()
+        for (parent, (facts, made)) in fl.exit_states():
+            if not made:
+                missed.append(fn.loc[0])
+        out.append((G, ctor, not missed, ln))
+    return out
